@@ -11,31 +11,52 @@ Open Scope Z_scope.
 Definition runm (cfg : tcfg) (ncap : Z -> option Z) (fa : fn_ast) (args : list val) (s : state) :=
   eval_fn cfg (fun _ => None) (prim cfg ncap) FUEL fa args s.
 
+(* symbolic evaluation of both sides with the machine's primitives opaque *)
 Ltac evm := cbv -[Z.add Z.sub Z.mul Z.div Z.modulo Z.eqb Z.ltb Z.leb Z.max Z.min Z.land W64 ISIZE_MAX
                   release esz ealign needs_drop is_pow2 layout_ok
-                  is_default len capacity alignment vec_handle hdr_block grow reserve_exact shrink_to_fit
-                  do_alloc do_realloc get_block put_block set_handle lift_opt make_layout max_align
+                  is_default len capacity alignment vec_handle hdr_block grow reserve reserve_exact shrink_to_fit truncate
+                  data as_ptr set_len add_len slot_read slot_write slot_copy padd read_list drop_list drop_elem hand_out
+                  do_alloc do_realloc get_block put_block set_handle lift_opt make_layout max_align next_aligned data_offset
                   nth_error heap vecs].
 
-(* case analysis on every lookup the two sides perform, re-using what is already known *)
-Ltac known :=
-  repeat match goal with
-         | H : ?x = _ |- context [match ?x with _ => _ end] => rewrite H
-         | H : ?x = _ |- context [if ?x then _ else _] => rewrite H
-         end.
-Ltac crush :=
-  repeat (cbv beta iota zeta delta [negb andb orb b_size b_align slots b_live h_len h_cap h_align with_hdr HEADER_SIZE]; known;
-          try reflexivity;
-          match goal with
-          | |- context [match ?x with _ => _ end] =>
-              lazymatch x with
-              | context [match _ with _ => _ end] => fail
-              | _ => destruct x eqn:?
-              end
-          | |- context [if ?x then _ else _] =>
-              lazymatch x with
-              | context [if _ then _ else _] => fail
-              | context [match _ with _ => _ end] => fail
-              | _ => destruct x eqn:?
-              end
-          end).
+(* Symbolic execution, one primitive at a time.  After `evm` both sides are decision trees over the
+   results of the same primitive calls (the evaluator is in CPS, the machine side is a chain of
+   binds): `step` finds the scrutinee at the HEAD of the left side (of the right side once the left
+   is a value), destructs it -- which replaces it on both sides -- and reduces.  Only reachable
+   paths are explored; every leaf closes by reflexivity. *)
+(* the scrutinee at the head of t: through nested matches and through applications whose head is a
+   match (monadic code: `match h with ... end s`) *)
+Ltac hs t :=
+  lazymatch t with
+  | match ?x with _ => _ end => hs x
+  | ?f _ => let r := hs_app f in
+            lazymatch r with
+            | tt => t
+            | _ => r
+            end
+  | _ => t
+  end
+with hs_app f :=
+  lazymatch f with
+  | match ?x with _ => _ end => hs x
+  | ?g _ => hs_app g
+  | _ => constr:(tt)
+  end.
+Ltac is_redex t :=
+  lazymatch t with
+  | match _ with _ => _ end => idtac
+  | ?f _ => let r := hs_app f in lazymatch r with tt => fail | _ => idtac end
+  end.
+Ltac red1 := cbv beta iota zeta delta [negb andb orb b_size b_align slots b_live h_len h_cap h_align
+                                       with_hdr HEADER_SIZE fst snd].
+(* a call whose result is already known (same primitive, same state) is not analysed again *)
+Ltac case_on x :=
+  first [ match goal with H : x = _ |- _ => rewrite H end
+        | destruct x eqn:? ].
+Ltac step :=
+  lazymatch goal with
+  | |- ?L = ?R =>
+      first [ is_redex L; let x := hs L in case_on x
+            | is_redex R; let x := hs R in case_on x ]
+  end; red1.
+Ltac sym := red1; repeat (try reflexivity; step).
